@@ -87,7 +87,9 @@ def _shim(F, rep, name, body):
     nb = body.normal_blocks()
     calls = [(bb, t) for bb, t in body.calls()]
     cu = [(bb, t) for bb, t in calls if strip_generics(callee_def(t)) == "std::panic::catch_unwind"]
-    other = [(bb, strip_generics(callee_def(t))) for bb, t in calls if strip_generics(callee_def(t)) != "std::panic::catch_unwind"]
+    # `x.is_err()` / `x.is_ok()` on the outcome are pure queries of its discriminant (the `if let Err(_) = x` of the call form)
+    other = [(bb, strip_generics(callee_def(t))) for bb, t in calls if strip_generics(callee_def(t)) != "std::panic::catch_unwind"
+             and not re.match(r"^std::result::Result::(is_err|is_ok)$", strip_generics(callee_def(t)))]
     rep.add("F1", "only-catch_unwind:" + short, len(cu) == 1 and not other, where,
             "calls outside catch_unwind: %r" % other if other else "the outer body calls catch_unwind and nothing else")
     asserts = [bb for bb in nb if body.term(bb)["k"] == "assert"]
@@ -173,6 +175,23 @@ def _status(rep, body, short, where, res_local):
                 inner_ok.append((bb, tg[0]))
             elif 1 in tg:
                 inner_ok.append((bb, t["otherwise"]))
+    # the inner result queried with is_err() / is_ok(): the branch on the returned bool
+    for bb, t in body.calls():
+        n = strip_generics(callee_def(t))
+        m = re.match(r"^std::result::Result::(is_err|is_ok)$", n)
+        if not m or not t["args"] or t["dest"]["p"]:
+            continue
+        ap = op_place(t["args"][0])
+        d0 = body.single_def(ap["l"]) if ap is not None and not ap["p"] else None
+        src = d0[3]["place"] if d0 and d0[2] == "assign" and d0[3]["k"] == "ref" else ap
+        if src is None or not (src["l"] in inner_locals or (src["l"] in alias and src["p"])):
+            continue
+        for sb in body.normal_blocks():
+            st = body.term(sb)
+            sp = op_place(st["d"]) if st["k"] == "switch" else None
+            if sp is not None and sp["l"] == t["dest"]["l"] and not sp["p"] and len(st["targets"]) == 1 and st["targets"][0][0] == 0:
+                false_edge, true_edge = st["targets"][0][1], st["otherwise"]
+                inner_ok.append((sb, false_edge if m.group(1) == "is_err" else true_edge))
     consts = []
     bad = []
 
